@@ -18,6 +18,13 @@ code -> spec : everything the real objects did (flags, alpha x10^4, theta_alpha 
                drivers (vectors of length 1..8, matrices up to 8x16, gaps >= 0.05, T in [0.05, 20]) are validated
                the same way.
 
+The verdict is total: an exception raised by the library (constructor, call, reading its state) ends the trace with the
+clause C10.raises; a theta_alpha that does not have the shape of alpha is C10.shape; coefficients / a temperature the
+harness did not write are C10.domain; an unreadable sampler falls back on the requested options with a drift line.  The
+objects are built by their PUBLIC constructors with every combination of the sampler flags, by keyword and positionally,
+and the options given there define the regime of the claims until the first option update.  Per-channel coefficient
+matrices include the SQUARE ones (2x2, 3x3, 4x4: as many channels as precisions), on bare quantisers and in whole models.
+
 Known findings reproduced here (signatures in Selection.tla / SelectionTrace.tla): F41 (SuperNetCombiner ignores eval
 mode when hard_softmax=False), F42 (SuperNetCombiner.summary() re-samples; with Gumbel noise in training the reported
 arg-max need not be the exported branch).  Which options select the sampler of an MPS quantiser is property C11
@@ -26,6 +33,7 @@ arg-max need not be the exported branch).  Which options select the sampler of a
 from __future__ import annotations
 
 import json
+import os
 import random
 import re
 import tempfile
@@ -1176,7 +1184,10 @@ def run(tier: str, seed: int, replay: Optional[str] = None) -> int:
     R.assumptions = [
         "coefficients are drawn with pairwise gaps >= 0.05 and temperatures in [0.05, 20] (the property's quantifier); "
         "one-hot is decided to 2e-6 per entry, sums to 1.6e-5 (theta logged x10^6)",
-        "the sampler in force is read from the object's bound `sample_alpha` method; which options select it is property C11 (F08)",
+        "the sampler options in force are those given to the public constructor (all of them are given there) until the first "
+        "option update; afterwards the sampler in force is read from the object's bound `sample_alpha` method - which options an "
+        "update selects is property C11 (F08)",
+        "constructors are called by keyword and, alternately, positionally in the order of the class's own signature",
         "theta_alpha is claimed only after a sampling step (forward pass, quantiser constructor); a quantiser constructed "
         "with disable_sampling=True holds all-ones until a checkpoint is loaded - outside the claim ('keep the saved coefficients')",
         "export() is followed by restoring the training flag it may clear (that side effect is property C18)",
@@ -1377,11 +1388,10 @@ def run(tier: str, seed: int, replay: Optional[str] = None) -> int:
     stats = {"export_left_eval": 0, "skipped_placeholder_slots": 0}
     batches = _Batches(R, "graph replay + random")
     n_events = 0
-    for i, sc in enumerate(scen):
-        tr, drv = execute(sc, open_ids)
+    for i, (sc, (tr, left_eval, skipped)) in enumerate(zip(scen, _execute_all(scen, open_ids))):
         n_events += len(tr["ev"])
-        stats["export_left_eval"] += getattr(drv, "export_left_eval", 0)
-        stats["skipped_placeholder_slots"] += getattr(drv, "skipped_slots", 0)
+        stats["export_left_eval"] += left_eval
+        stats["skipped_placeholder_slots"] += skipped
         if i in (0, n_graph_scen - 1, len(scen) - 1):
             R.sample({"scenario": {k: v for k, v in sc.items() if k != "steps"} | {"steps": sc["steps"][:6]},
                       "observed": [{"a": e["a"], "v": e["v"] if e["a"] != "load" else "(checkpoint)", "o": e["o"][:1],
@@ -1397,6 +1407,40 @@ def run(tier: str, seed: int, replay: Optional[str] = None) -> int:
     return R.finish()
 
 
+def _exec_chunk(args):
+    """worker process: execute a chunk of scenarios on real objects (each scenario is self-contained and seeded)"""
+    chunk, open_ids = args
+    out = []
+    for sc in chunk:
+        tr, drv = execute(sc, open_ids)
+        out.append((tr, getattr(drv, "export_left_eval", 0), getattr(drv, "skipped_slots", 0)))
+    return out
+
+
+def _execute_all(scen: List[Dict[str, Any]], open_ids: List[str], procs: int = 3, chunk: int = 24, ahead: int = 8):
+    """Execute the scenarios in `procs` worker processes (spawned: no state is shared, a scenario carries everything it
+    needs, the tree under test comes from VERIF_REPO as in this process); results are yielded in scenario order and at
+    most `ahead` chunks are in flight, so that memory stays bounded."""
+    import multiprocessing
+    from concurrent.futures import ProcessPoolExecutor
+    if int(os.environ.get("VERIF_C10_PROCS", procs)) <= 1:
+        for sc in scen:
+            tr, drv = execute(sc, open_ids)
+            yield tr, getattr(drv, "export_left_eval", 0), getattr(drv, "skipped_slots", 0)
+        return
+    chunks = [scen[k:k + chunk] for k in range(0, len(scen), chunk)]
+    with ProcessPoolExecutor(max_workers=int(os.environ.get("VERIF_C10_PROCS", procs)),
+                             mp_context=multiprocessing.get_context("spawn")) as ex:
+        pending: deque = deque()
+        nxt = 0
+        while nxt < len(chunks) or pending:
+            while nxt < len(chunks) and len(pending) < ahead:
+                pending.append(ex.submit(_exec_chunk, (chunks[nxt], open_ids)))
+                nxt += 1
+            for item in pending.popleft().result():
+                yield item
+
+
 TLC_ENV = {"JAVA_TOOL_OPTIONS": "-Xss64m"}     # SelectionTrace recurses over blocks of 25 events; generous worker stacks
 
 
@@ -1409,12 +1453,12 @@ class _Batches:
     """Traces are validated in batches of bounded size (TLC holds a batch in memory) while the next scenarios are
     being executed: the TLC run of a batch is started in the background, its verdicts are then handed to
     core.Run.validate (classification, known findings, evidence counters stay in core)."""
-    MAX_EVENTS = 40000
+    MAX_EVENTS = 25000
 
     def __init__(self, R: Run, label: str):
         from concurrent.futures import ThreadPoolExecutor
         self.R, self.label = R, label
-        self.ex = ThreadPoolExecutor(max_workers=1)
+        self.ex = ThreadPoolExecutor(max_workers=2)
         self.cur: List[Tuple[Any, Any]] = []
         self.cur_events = 0
         self.pending: List[Tuple[Any, List[Any], List[Any], Dict[int, bool]]] = []
@@ -1432,11 +1476,11 @@ class _Batches:
         scs = [x[0] for x in self.cur]
         trs = [x[1] for x in self.cur]
         nontriv = {id(sc): _winner_changes(tr) for sc, tr in self.cur}
-        fut = self.ex.submit(tlc.validate_traces, "SelectionTrace", "SelectionTrace", trs, chunk=1 << 30, workers=6,
+        fut = self.ex.submit(tlc.validate_traces, "SelectionTrace", "SelectionTrace", trs, chunk=1 << 30, workers=4,
                              env=TLC_ENV)
         self.pending.append((fut, scs, trs, nontriv))
         self.cur, self.cur_events = [], 0
-        while len(self.pending) > 2:          # bound the memory held by finished scenarios
+        while len(self.pending) > 3:          # bound the memory held by finished scenarios
             self._collect()
 
     def _collect(self) -> None:
